@@ -310,3 +310,58 @@ Definition mech_policy (f : fixes) (m : mech) (st : option Z) (fresh : result) (
     instant computed by the cachecontrol oracle; the two clock readings coincide *)
 Definition http_policy (f : fixes) (dflt : Z) (fresh : result) (now : Z) : option Z :=
   http_store_decision f true (r_exp fresh) dflt now now.
+
+(** ** histories in which every request runs under its own rule
+
+    One mechanism prototype, many rules: each request carries the ttl state [st]
+    of the instance its rule created (prototype `cache_ttl` + rule-level
+    override).  The cache keys of the remote authorizer, the generic
+    contextualizer and the jwt finalizer contain the ttl, so instances with
+    different ttl never share an entry; the keys of the three authenticators and
+    of client credentials do not (C10-F5 / [fx5]: the repaired keys do), so a
+    request under a short ttl is answered from an entry a request under a long
+    ttl stored.  The cache is therefore a family of caches indexed by the part
+    of the state that is in the key. *)
+Definition key_has_ttl (f : fixes) (m : mech) : bool :=
+  match m with MRemote | MCtx | MJwtFin => true | _ => fx5 f end.
+
+Definition nspace (f : fixes) (m : mech) (st : option Z) : option Z :=
+  if key_has_ttl f m then st else None.
+
+Definition oz_eqb : option Z -> option Z -> bool := option_eqb Z.eqb.
+
+Definition ncache := list (option Z * cache result).
+
+Fixpoint nget (n : option Z) (cs : ncache) : cache result :=
+  match cs with
+  | [] => []
+  | (n', c) :: r => if oz_eqb n' n then c else nget n r
+  end.
+
+Fixpoint nset (n : option Z) (c : cache result) (cs : ncache) : ncache :=
+  match cs with
+  | [] => [(n, c)]
+  | (n', c') :: r => if oz_eqb n' n then (n, c) :: r else (n', c') :: nset n c r
+  end.
+
+Inductive mev := MAdv (dt : Z) | MReq (k : Z) (st : option Z) (fresh : result) (d : Z).
+Inductive mout :=
+| MHit (t : Z) (st : option Z) (v : result)
+| MMiss (tc ts : Z) (st : option Z) (fresh : result) (s : option Z).
+
+Fixpoint runm (b : backend) (f : fixes) (m : mech) (now : Z) (cs : ncache) (h : list mev) : list mout :=
+  match h with
+  | [] => []
+  | MAdv dt :: r => runm b f m (now + dt) cs r
+  | MReq k st fresh d :: r =>
+      let n := nspace f m st in
+      let c := nget n cs in
+      match (if lookup_enabled m st then cget b now k c else None) with
+      | Some v => MHit now st v :: runm b f m now cs r
+      | None =>
+          let s := mech_policy f m st fresh now in
+          let ts := now + d in
+          MMiss now ts st fresh s
+                :: runm b f m ts (match s with Some ttl => nset n (cset b ts k fresh ttl c) cs | None => cs end) r
+      end
+  end.
